@@ -16,19 +16,13 @@ use crate::sysshim::{self, coop, Point};
 use serde_json::{json, Value};
 use std::os::unix::io::{AsRawFd, RawFd};
 use std::os::unix::net::UnixStream;
-use std::sync::{Arc, Mutex, Once};
+use std::sync::{Arc, Mutex};
 use vhost::vhost_user::message::VhostUserHeaderFlag;
 use vhost::vhost_user::{Backend, Frontend, GpuBackend};
 
-static HOOK: Once = Once::new();
-
-fn install_lock_hook() {
-    HOOK.call_once(|| {
-        vhost::vhost_user::verif::set_lock_point(Box::new(|site, try_lock| {
-            sysshim::sched_point(Point::Lock(site), try_lock);
-        }));
-    });
-}
+/// The endpoint-mutex acquisitions are scheduling points: the process-wide lock-point callback
+/// (crash.rs) hands them to the controller while one is installed.
+fn install_lock_hook() {}
 
 #[derive(Clone, Debug)]
 pub enum Call {
@@ -41,6 +35,10 @@ pub enum Call {
 pub struct Sc10 {
     pub calls: Vec<Call>,
     pub need_reply: bool,
+    /// negotiation the frontend endpoint went through before the calls: 0 = everything offered and
+    /// acknowledged, 1 = protocol features offered, none acknowledged, 2 = PROTOCOL_FEATURES never
+    /// offered, 3 = everything except the feature the first call is tied to
+    pub nego: u8,
 }
 
 /// The handler values the peer answers caller `i` with: every value carries the caller's index, so
@@ -156,7 +154,7 @@ impl Scenario for Sc10 {
                 Call::Gpu(o) => o.name().to_string(),
             })
             .collect();
-        format!("{}{}", n.join("|"), if self.need_reply { "+NR" } else { "" })
+        format!("{}{}{}", n.join("|"), if self.need_reply { "+NR" } else { "" }, if self.nego != 0 { format!("/nego{}", self.nego) } else { String::new() })
     }
 
     fn expected_threads(&self) -> usize {
@@ -174,7 +172,16 @@ impl Scenario for Sc10 {
                 // negotiation on the explorer thread in coop mode, then hand clones to the callers
                 coop::enable();
                 let mut f = FeRaw::new(4);
-                f.negotiate(VIRTIO_F_PROTOCOL_FEATURES | 0x3, PF_ALL_DEFINED, PF_ALL_DEFINED)?;
+                let gate0 = match &self.calls[0] {
+                    Call::Fe(op) => op.gate().unwrap_or(0),
+                    _ => 0,
+                };
+                match self.nego {
+                    0 => f.negotiate(VIRTIO_F_PROTOCOL_FEATURES | 0x3, PF_ALL_DEFINED, PF_ALL_DEFINED)?,
+                    1 => f.negotiate(VIRTIO_F_PROTOCOL_FEATURES | 0x3, PF_ALL_DEFINED, 0)?,
+                    2 => f.negotiate(0x3, 0, 0)?,
+                    _ => f.negotiate(VIRTIO_F_PROTOCOL_FEATURES | 0x3, PF_ALL_DEFINED, PF_ALL_DEFINED & !gate0)?,
+                }
                 f.fe.set_hdr_flags(if self.need_reply { VhostUserHeaderFlag::NEED_REPLY } else { VhostUserHeaderFlag::empty() });
                 let fd = f.raw.ep_fd;
                 let p = f.raw.peer.try_clone().map_err(|e| e.to_string())?;
@@ -342,7 +349,9 @@ impl Scenario for Sc10 {
             let want = expected(&self.calls, i, self.need_reply, &s.res);
             match &res[i] {
                 Some(got) => {
-                    let ok = if want == "Err" { got.starts_with("Err") } else { *got == want };
+                    // after a partial negotiation a call may be refused (which calls must be is C07's
+                    // subject): here it has to complete, and a value it returns must be its own
+                    let ok = if want == "Err" || self.nego != 0 && got.starts_with("Err") { got.starts_with("Err") } else { *got == want };
                     if !ok {
                         x.violation("C10:caller-did-not-get-its-own-reply", &format!("caller {i} ({}) returned {got}, its own reply carries {want}", self.name()));
                     }
@@ -356,7 +365,17 @@ impl Scenario for Sc10 {
         // closing the peer releases callers that are still blocked reading
         drop(s.peer);
         for h in s.handles {
-            let _ = h.join();
+            // a caller that dead-locked itself on the endpoint mutex never returns: it is leaked
+            // (the violation has been reported by `finish`), never joined
+            let start = std::time::Instant::now();
+            while !h.is_finished() && start.elapsed() < std::time::Duration::from_secs(3) {
+                std::thread::sleep(std::time::Duration::from_millis(2));
+            }
+            if h.is_finished() {
+                let _ = h.join();
+            } else {
+                crate::daemonh::STUCK.store(true, std::sync::atomic::Ordering::SeqCst);
+            }
         }
     }
 }
@@ -381,33 +400,43 @@ pub fn run(rep: &mut Report) {
         if thorough {
             for a in &fe_ops {
                 for b in &fe_ops {
-                    scs.push(Sc10 { calls: vec![Call::Fe(a.clone()), Call::Fe(b.clone())], need_reply: nr });
+                    scs.push(Sc10 { calls: vec![Call::Fe(a.clone()), Call::Fe(b.clone())], need_reply: nr, nego: 0 });
                 }
             }
         } else {
             for a in &fe_ops {
                 for b in &inter[..2] {
-                    scs.push(Sc10 { calls: vec![Call::Fe(a.clone()), Call::Fe(b.clone())], need_reply: nr });
-                    scs.push(Sc10 { calls: vec![Call::Fe(b.clone()), Call::Fe(a.clone())], need_reply: nr });
+                    scs.push(Sc10 { calls: vec![Call::Fe(a.clone()), Call::Fe(b.clone())], need_reply: nr, nego: 0 });
+                    scs.push(Sc10 { calls: vec![Call::Fe(b.clone()), Call::Fe(a.clone())], need_reply: nr, nego: 0 });
                 }
-                scs.push(Sc10 { calls: vec![Call::Fe(a.clone()), Call::Fe(a.clone())], need_reply: nr });
+                scs.push(Sc10 { calls: vec![Call::Fe(a.clone()), Call::Fe(a.clone())], need_reply: nr, nego: 0 });
             }
         }
     }
-    scs.push(Sc10 { calls: vec![Call::Fe(inter[0].clone()), Call::Fe(inter[1].clone()), Call::Fe(inter[2].clone())], need_reply: true });
+    scs.push(Sc10 { calls: vec![Call::Fe(inter[0].clone()), Call::Fe(inter[1].clone()), Call::Fe(inter[2].clone())], need_reply: true, nego: 0 });
+    // "all calls complete": the branches an operation takes when its feature was not negotiated hold
+    // the endpoint mutex too - every operation after each partial negotiation, next to a plain call
+    for nego in 1..=3u8 {
+        for a in &fe_ops {
+            if nego == 3 && a.gate().is_none() {
+                continue;
+            }
+            scs.push(Sc10 { calls: vec![Call::Fe(a.clone()), Call::Fe(FeOp::GetFeatures)], need_reply: false, nego });
+        }
+    }
     let u = UUID_A;
     let bp = vec![BpOp::SharedAdd(u), BpOp::ShmemUnmap(1, 0, 0, 0x1000, 0), BpOp::SharedLookup(u), BpOp::SharedRemove(u), BpOp::ShmemMap(2, 0, 0x1000, 0x1000, 1)];
     for a in &bp {
         for b in &bp {
             for nr in [false, true] {
-                scs.push(Sc10 { calls: vec![Call::Bp(a.clone()), Call::Bp(b.clone())], need_reply: nr });
+                scs.push(Sc10 { calls: vec![Call::Bp(a.clone()), Call::Bp(b.clone())], need_reply: nr, nego: 0 });
             }
         }
     }
     let gp = gpu_ops_basic();
     for a in &gp {
         for b in &gp {
-            scs.push(Sc10 { calls: vec![Call::Gpu(a.clone()), Call::Gpu(b.clone())], need_reply: false });
+            scs.push(Sc10 { calls: vec![Call::Gpu(a.clone()), Call::Gpu(b.clone())], need_reply: false, nego: 0 });
         }
     }
     if thorough {
@@ -419,16 +448,16 @@ pub fn run(rep: &mut Report) {
             for a in &rep6 {
                 for b in &rep6 {
                     for c in &rep6 {
-                        scs.push(Sc10 { calls: vec![Call::Fe(a.clone()), Call::Fe(b.clone()), Call::Fe(c.clone())], need_reply: nr });
+                        scs.push(Sc10 { calls: vec![Call::Fe(a.clone()), Call::Fe(b.clone()), Call::Fe(c.clone())], need_reply: nr, nego: 0 });
                     }
                 }
             }
         }
         for (a, b, c) in [(0, 9, 13), (0, 6, 14), (9, 9, 17), (6, 8, 0), (5, 0, 9), (21, 20, 27)] {
-            scs.push(Sc10 { calls: vec![Call::Fe(fe_ops[a].clone()), Call::Fe(fe_ops[b].clone()), Call::Fe(fe_ops[c].clone())], need_reply: true });
+            scs.push(Sc10 { calls: vec![Call::Fe(fe_ops[a].clone()), Call::Fe(fe_ops[b].clone()), Call::Fe(fe_ops[c].clone())], need_reply: true, nego: 0 });
         }
-        scs.push(Sc10 { calls: vec![Call::Bp(bp[0].clone()), Call::Bp(bp[1].clone()), Call::Bp(bp[2].clone())], need_reply: true });
-        scs.push(Sc10 { calls: vec![Call::Gpu(gp[0].clone()), Call::Gpu(gp[1].clone()), Call::Gpu(gp[2].clone())], need_reply: false });
+        scs.push(Sc10 { calls: vec![Call::Bp(bp[0].clone()), Call::Bp(bp[1].clone()), Call::Bp(bp[2].clone())], need_reply: true, nego: 0 });
+        scs.push(Sc10 { calls: vec![Call::Gpu(gp[0].clone()), Call::Gpu(gp[1].clone()), Call::Gpu(gp[2].clone())], need_reply: false, nego: 0 });
     }
     let start = std::time::Instant::now();
     let total_budget = if thorough { 1500.0 } else { 150.0 };
@@ -451,7 +480,7 @@ pub fn run(rep: &mut Report) {
     }
     rep.extra.insert("scenarios".into(), json!(done));
     rep.extra.insert("distinct_request_orders".into(), json!(all_outcomes.len()));
-    rep.rule = "per scenario (ordered pairs - and triples at thorough - of calls on clones of one endpoint: reply-bearing, acknowledged and fire-and-forget frontend operations with NEED_REPLY on/off, Backend proxy calls in ack and no-ack mode, GPU proxy calls): all schedules of the caller threads and the answering peer with at most 2 (4 at thorough) preemptions; scheduling points lock_point (endpoint mutex), sendmsg, recvmsg. Oracle in every state: no request on the wire while a reply is unread, no request behind a reply-awaiting request; at the end: every caller returned the value tagged for its own request, all callers completed. Non-trivial = schedules that preempt a runnable thread at least once (all schedules are distinct)".into();
+    rep.rule = "per scenario (ordered pairs - and triples at thorough - of calls on clones of one endpoint: reply-bearing, acknowledged and fire-and-forget frontend operations with NEED_REPLY on/off, Backend proxy calls in ack and no-ack mode, GPU proxy calls; every frontend operation next to GET_FEATURES after three partial negotiations - nothing acknowledged, PROTOCOL_FEATURES never offered, everything but the operation's own feature): all schedules of the caller threads and the answering peer with at most 2 (4 at thorough) preemptions; scheduling points lock_point (endpoint mutex), sendmsg, recvmsg. Oracle in every state: no request on the wire while a reply is unread, no request behind a reply-awaiting request; at the end: every caller returned the value tagged for its own request, all callers completed. Non-trivial = schedules that preempt a runnable thread at least once (all schedules are distinct)".into();
     rep.assumptions.push("callers block only at the endpoint mutex (hook), sendmsg or recvmsg; a thread blocked elsewhere is detected through /proc and treated as blocked".into());
 }
 
